@@ -27,6 +27,12 @@ def repo():
     return os.environ.get("VERIF_REPO", "/repo")
 
 
+def real_repo():
+    """directory from which the *real* esutil is imported for conformance passes: a fresh
+    scratch build when the driver made one, else the repository directory"""
+    return os.environ.get("VERIF_REAL_ESUTIL") or repo()
+
+
 class Opaque(str):
     """result of formatting something symbolic"""
 
